@@ -95,8 +95,15 @@ def symbolic_solution(P, layout, horizon, calendar=False):
         rs = ResourceSolution(name=rn)
         rs.assignments = []
         for tn in tnames:
+            partial = tn.endswith("~")  # the resource holds the task for a part of its span only (delayed / early out /
+            tn = tn.rstrip("~")         # dynamic assignment): any interval inside the span, possibly empty
             ts = tasks[tn]
-            rs.assignments.append((tn, ts.start, ts.end))
+            if partial:
+                a_s, a_e = real(f"{rn}_{tn}_as"), real(f"{rn}_{tn}_ae")
+                assume += [ts.start <= a_s, a_s <= a_e, a_e <= ts.end]
+                rs.assignments.append((tn, a_s, a_e))
+            else:
+                rs.assignments.append((tn, ts.start, ts.end))
             ts.assigned_resources = ts.assigned_resources + [rn]
         sol.add_resource_solution(rs)
     for bn, n in layout.get("buffers", {}).items():
@@ -120,6 +127,7 @@ LAYOUTS = {
     "maybe_zero": dict(tasks={"A": (True, "any"), "B": (False, "zero")}, resources={"R1": ["A"]}, indicators=True),
     "no_resource": dict(tasks={"A": (True, "pos"), "B": (False, "pos"), "C": (True, "zero")}, resources={}),
     "buffers": dict(tasks={"A": (True, "pos"), "B": (True, "pos")}, resources={"R1": ["A", "B"]}, buffers={"Buf": 2, "Buf2": 1}, indicators=True),
+    "partial_assignments": dict(tasks={"A": (True, "pos"), "B": (True, "pos")}, resources={"R1": ["A", "B~"], "R2": ["A~"]}),
 }
 
 
@@ -284,11 +292,16 @@ def agg_check(layout_name, mode, twice, calendar=False):
             ts.assigned_resources = []
             sol.add_task_solution(ts)
             tasks[tn] = ts
-        for rn, tnames in lay["resources"].items():
+        for k, (rn, tnames) in enumerate(lay["resources"].items()):
             rs = ResourceSolution(name=rn)
-            rs.assignments = [(tn, tasks[tn].start, tasks[tn].end) for tn in tnames]
+            rs.assignments = []
             for tn in tnames:
-                tasks[tn].assigned_resources = tasks[tn].assigned_resources + [rn]
+                t = tasks[tn.rstrip("~")]
+                if tn.endswith("~"):  # first partial assignment: empty, in the middle of the span; the next ones: the last period
+                    rs.assignments.append((t.name, t.start + 1, t.start + 1) if k == 0 else (t.name, t.end - 1, t.end))
+                else:
+                    rs.assignments.append((t.name, t.start, t.end))
+                t.assigned_resources = t.assigned_resources + [rn]
             sol.add_resource_solution(rs)
         for bn, n in lay.get("buffers", {}).items():
             bs = BufferSolution(name=bn)
